@@ -213,6 +213,10 @@ def check(case, stats):
                                    bool(case.get('tricky_names')))
         if case.get('tricky_names'):
             stats.count('class:tricky_names')
+        if rec.get('showdown_moved_after_runout'):
+            # all-in before the river: the log shows the hands after the
+            # run-out, the engine tabled them before it
+            stats.count('class:allin_runout_then_show_lines')
         if site == 'full_tilt' and case.get('cap') and cfg.get('chip') == 'int':
             # a "Cap" table whose cap is above every stack (no effect)
             rec['cap'] = 2 * max(rec['stacks'])
